@@ -849,11 +849,16 @@ class C16(Prop):
             ths = [gen_thread(rng, 0, shared, "C" if rng.random() < 0.8 else "I", gate=True)] + \
                   [gen_thread(rng, i, shared) for i in range(1, rng.choice([2, 2, 3]))]
             cases.append({"kind": "gate", "threads": ths})
-        for _ in range(5 if quick else 40):
+        for k in range(5 if quick else 40):
             shared = rng.random() < 0.6
             n = 2 if rng.random() < 0.75 else 3
             ths = [gen_thread(rng, i, shared) for i in range(n)]
-            if all(t["runner"] == "I" for t in ths):
+            if k % 5 == 1:
+                # interpreted threads only: the model says they share nothing — the line-level interleavings of
+                # InterpretedRunner.evaluate / Evaluator.evaluate / set_activation are explored on the real code all the same
+                for t in ths:
+                    t["runner"] = "I"
+            elif all(t["runner"] == "I" for t in ths):
                 ths[0]["runner"] = "C"
             cases.append({"kind": "explore", "threads": ths, "bound": 2, "budget": 40 if quick else 400,
                           "seed": rng.randrange(10 ** 6)})
